@@ -193,10 +193,7 @@ impl Formatter {
 
     fn format_import_path(&mut self, path: &ImportPath) {
         if path.is_absolute {
-            self.writer.write("crate");
-            if !path.segments.is_empty() {
-                self.writer.write("::");
-            }
+            self.writer.write("crate::");
         } else {
             for _ in 0..path.parent_levels {
                 self.writer.write("super::");
